@@ -88,6 +88,7 @@ def case_strategy(draw, target):
             conv_choices=("random", "random", NATIVE[target], "HORTON2", "CCA", "fchk", "molden", "wfn", "mwfn"),
             exp_range=(-2.0, 3.0),
             max_nbasis=45,
+            balanced=True,
         )
     )
     if target in ("molden", "molekel") and draw(st.sampled_from([True] * 9 + [False])):
@@ -106,11 +107,17 @@ def case_strategy(draw, target):
     if order == "sorted":
         basis["shells"] = sorted(basis["shells"], key=lambda sh: sh["icenter"])
     mo_kinds = ("restricted", "restricted", "unrestricted")
-    mo = draw(wf.st_mo(kinds=mo_kinds))
-    if target == "fchk" and draw(st.sampled_from([True] * 9 + [False])):
-        # FCHK stores electron counts only: mostly aufbau occupations
-        mo["occ"] = "open_integer" if mo["kind"] == "restricted" else "aufbau"
-        mo["aminusb"] = False
+    mo = draw(wf.st_mo(kinds=mo_kinds, non_aufbau=True))
+    if target == "fchk":
+        # FCHK stores electron counts only: mostly aufbau occupations (which it must write), some
+        # excited determinants (which it must refuse: they would silently come back as aufbau)
+        choice = draw(st.sampled_from(["aufbau"] * 7 + ["non_aufbau"] * 2 + ["free"]))
+        if choice == "aufbau":
+            mo["occ"] = "open_integer" if mo["kind"] == "restricted" else "aufbau"
+            mo["aminusb"] = False
+        elif choice == "non_aufbau":
+            mo["occ"] = "non_aufbau"
+            mo["aminusb"] = False
     if draw(st.sampled_from([True] * 9 + [False])):
         mo["energies"] = True
     return {
@@ -216,6 +223,8 @@ def build_case(spec):
         labels.append("fractional_nelec")
     if not (np.all(np.isin(occsa, (0.0, 1.0))) and np.all(np.isin(occsb, (0.0, 1.0)))):
         labels.append("fractional_occupations")
+    elif np.any(np.diff(occsa) > 0) or np.any(np.diff(occsb) > 0):
+        labels.append("non_aufbau_occupations")
     if mo["kind"] == "restricted" and int(round(mo["occs"].sum())) % 2 == 1:
         labels.append("restricted_odd")
     if spec.get("rdm"):
@@ -296,7 +305,7 @@ def check_generated(spec, tmpdir):
 
 NT_LABELS = {
     "unsorted_shells", "nonnative_conventions", "generalized", "pure", "ecp", "ghost",
-    "unrestricted", "open_shell", "occs_aminusb",
+    "unrestricted", "open_shell", "occs_aminusb", "non_aufbau_occupations",
 }
 
 
